@@ -48,6 +48,23 @@ def view(msg):
     return (type(msg).__name__, msg.as_bytes, bool(msg.is_valid))
 
 
+class _Transport(asyncio.BaseTransport):
+    """What asyncio hands to connection_made()."""
+
+    def __init__(self):
+        super().__init__()
+        self.closed = False
+
+    def close(self):
+        self.closed = True
+
+    def is_closing(self):
+        return self.closed
+
+    def get_extra_info(self, name, default=None):
+        return ("fake-host", 4059) if name == "peername" else default
+
+
 def run_protocol(kind, spec, chunks, gap_pattern="none"):
     _ensure_loop()
     from vlib import fakeclock
@@ -58,6 +75,10 @@ def run_protocol(kind, spec, chunks, gap_pattern="none"):
     proto = guarded(cls, q, readers if len(chunks) % 2 else tuple(readers), what=cls.__name__)  # candidates given as a list or a tuple
     per_chunk = []
     gaps = fakeclock.gaps_for(len(chunks), gap_pattern, len(chunks))
+    if (sum(map(len, chunks)) + (kind == "payload")) % 2:
+        # the life cycle asyncio drives: connection_made(transport) comes before the first data (the other half of the runs feeds
+        # data to a protocol object that was never attached to a transport, as unit tests do)
+        guarded(proto.connection_made, _Transport(), what=f"{cls.__name__}.connection_made")
     with fakeclock.FakeClock() as clk:  # virtual seconds pass between the calls: forwarding must not depend on timing
         for ch, gap in zip(chunks, gaps):
             clk.advance(gap)
@@ -364,6 +385,7 @@ def build() -> Check:
             "each fed a clean stream - both must forward everything and the caller's list must be left as it was. factory: protocols obtained from han.tcp_connection_factory (default candidate readers) through a fake loop, 1..3 connections one after "
             "another (earlier ones may end mid-message), each must forward its clean stream completely. backlog: 1..1500 small clean messages (boundaries 255/256/257/1025 forced) delivered in one or "
             "several calls while nothing consumes the queue - afterwards the queue must hold every one of them, in order."
+            ' In half of the runs connection_made(fake transport) is called before the first data (the life cycle asyncio drives), in the other half the protocol is fed without ever being attached.'
         ),
         assumptions=[
             "Candidate readers are passed as a list or as a tuple (the parameter is a Sequence); in the clean clause virtual time gaps of 0 s .. 1 day pass between data_received() calls.",
